@@ -448,6 +448,15 @@ fn run<A: Cont>(len: usize, toks: &[&str]) -> String {
                         Err(_) => "err".into(),
                     }
                 }
+                // rawmlock — the APPLICATION locks the region's pages itself (libc::mlock on the container's buffer, behind the crate's back;
+                // the same situation as a process running under mlockall): releases must still wipe
+                "rawmlock" => {
+                    if idx >= slots.len() { return "noslot".into(); }
+                    let (ptr, l) = (slots[idx].ptr, slots[idx].len);
+                    if l == 0 { return "n/a".into(); }
+                    let r = unsafe { libc::mlock(ptr as *const libc::c_void, l) };
+                    if r == 0 { "ok".into() } else { "err".into() }
+                }
                 // mpfail:K — the K-th mprotect request from here on (one request only) is refused with ENOMEM
                 "mpfail" => { if set_mprotect_fail_at(arg.parse().unwrap_or(-1)) { "ok".into() } else { "noshim".into() } }
                 "failfrom" => { if set_fail_from(arg.parse().unwrap_or(-1)) { "ok".into() } else { "noshim".into() } }
